@@ -3,6 +3,8 @@ package main
 // Per-function verification: initial state, contract binding, obligation generation.
 
 import (
+	"os"
+	"runtime/debug"
 	"fmt"
 	"go/types"
 	"sort"
@@ -44,6 +46,9 @@ func (P *Program) VerifyFunc(fn *ssa.Function, ct *Contract, full bool, pathCap 
 	defer func() {
 		if r := recover(); r != nil {
 			rep.Unsupported = append(rep.Unsupported, fmt.Sprintf("engine panic: %v", r))
+			if os.Getenv("GOWP_DEBUG") == "panic" {
+				fmt.Fprintf(os.Stderr, "engine panic in %s: %v\n%s\n", relName(fn), r, debug.Stack())
+			}
 			rep.Obligations = x.obs
 			rep.Capped = true
 		}
